@@ -65,6 +65,13 @@ def rate_fault_servers():
         'ratereset': dh(rate_fault=('recv', errno.ECONNRESET)),
         'raterefused': dh(rate_fault=('connect', errno.ECONNREFUSED)),
         'ratenobufs': dh(rate_fault=('connect', errno.ENOBUFS)),
+        # a scan that first writes findings into the thread's rating database (1024-bit RSA key, host-key probes) and then leaves through an uncaught
+        # exception (socket error inside its rate check) — and a target with the same lists and banner but a 4096-bit key that must not inherit anything
+        'rsa1024_rateunreach': fn.simple_server(kex=('curve25519-sha256', 'diffie-hellman-group14-sha256'), key=('rsa-sha2-512', 'rsa-sha2-256', 'ssh-ed25519'), enc=('aes256-ctr',),
+                                                mac=('hmac-sha2-256-etm@openssh.com',), hostkeys={'rsa-sha2-512': fn.rsa_blob(1024), 'rsa-sha2-256': fn.rsa_blob(1024), 'ssh-ed25519': fn.ed25519_blob()},
+                                                rate_fault=('recv', errno.EHOSTUNREACH)),
+        'rsa4096_dh': fn.simple_server(kex=('curve25519-sha256', 'diffie-hellman-group14-sha256'), key=('rsa-sha2-512', 'rsa-sha2-256', 'ssh-ed25519'), enc=('aes256-ctr',),
+                                       mac=('hmac-sha2-256-etm@openssh.com',), hostkeys={'rsa-sha2-512': fn.rsa_blob(4096), 'rsa-sha2-256': fn.rsa_blob(4096), 'ssh-ed25519': fn.ed25519_blob()}),
         'probeunreach': fn.simple_server(kex=('curve25519-sha256',), key=('ssh-ed25519', 'rsa-sha2-512'), hostkeys={'ssh-ed25519': fn.ed25519_blob(), 'rsa-sha2-512': fn.rsa_blob(3072)},
                                          sock_fault=('recv', errno.EHOSTUNREACH, 1)),
         'hsunreach': fn.simple_server(kex=('curve25519-sha256',), key=('ssh-ed25519',), hostkeys={'ssh-ed25519': fn.ed25519_blob()}, sock_fault=('recv', errno.EHOSTUNREACH, 0)),
